@@ -549,6 +549,12 @@ def do_aw(case, R):
                     R.fail('limit-adjust-lost-with-negative-sign' if neg_adj else 'antiwindup-pegged-not-at-limit', 'pegged state is %r, limit %r' % (st.v[i], lim))
                 if not any(i in np.atleast_1d(a) for a, _, _ in obj.x_set):
                     R.fail('antiwindup-xset-missing', 'pegged device missing from x_set')
+                # the value x_set hands to System.fg_to_dae (which writes it into dae.x) is the limit in force NOW
+                for a_, v_, _ in obj.x_set:
+                    for ai, vi in zip(np.atleast_1d(a_), np.atleast_1d(v_)):
+                        if int(ai) == i and vi != lim and not neg_adj:
+                            R.fail('antiwindup-xset-value-stale', 'x_set writes %r into the state vector for a state pegged at the limit %r '
+                                   '(the limit moved since the value was recorded)' % (float(vi), float(lim)))
             else:
                 if st.v[i] != pre_x[i] and not (st.v[i] == 0 and pre_x[i] == 0):
                     R.fail('antiwindup-free-state-changed', 'state of a device that is not pegged changed')
